@@ -384,8 +384,15 @@ class Exec:
             ok = bool(c)
             m = self._model() if not ok else None
         else:
+            c0 = c
             c = z3.simplify(c)
             if z3.is_true(c):
+                if getattr(self, "force_solver", False) and self.concrete is None:
+                    # decided by the solver, not by the rewriter: the negation of the original term must be unsat
+                    self.nontrivial = getattr(self, "nontrivial", 0) + 1
+                    if self.feasible(z3.Not(c0)):
+                        self.finding("UNKNOWN", "rewriter-solver-disagreement", str(c0)[:200])
+                        raise Abort()
                 return True
             self.nontrivial = getattr(self, "nontrivial", 0) + 1
             if z3.is_false(c):
@@ -985,7 +992,13 @@ class Exec:
         symoff = None
         ty = bt
         first = True
-        for _, iv in idx:
+        for it, iv in idx:
+            ib = it.bits if isinstance(it, IntT) else 64
+            if isinstance(iv, int):
+                if ib < 64 and iv >> (ib - 1):
+                    iv = (iv - (1 << ib)) & M64
+            elif ib < 64:
+                iv = z3.SignExt(64 - ib, iv)
             if first:
                 es = sizeof(ty)
                 first = False
